@@ -185,6 +185,13 @@ type Cron struct {
 
 	// The approximate maximum number pending jobs.
 	Limit int
+
+	// suspended is true while the processing loop is suspended
+	// (locally or by broadcast).  Guarded by the mutex, so that
+	// resetTimer, which also runs on callers' goroutines (Add,
+	// Rem, a recurring job's re-scheduling), does not arm the
+	// timer of a suspended instance.
+	suspended bool
 }
 
 // NewCron creates a new Cron instanced.
@@ -204,7 +211,8 @@ func NewCron(broadcaster *CronBroadcaster, pause time.Duration, name string, lim
 		time.Now(),
 		pause,
 		name,
-		limit}
+		limit,
+		false}
 
 	return c, nil
 }
@@ -288,15 +296,11 @@ func (c *Cron) start(ctx *core.Context) error {
 	c.Unlock()
 
 	// Either a broadcast or a local command can suspend or resume the loop.
-	// Might want separate state.
-	suspendedLocally := false
+	// Might want separate state.  The state is c.suspended.
 
 	// We'll receive a broadcast on this channel.
 	broadcast, suspendedByBroadcast := c.broadcaster.Get()
-	if suspendedByBroadcast {
-		suspendedLocally = true
-		c.stopTimerLocked()
-	}
+	c.setSuspended(suspendedByBroadcast)
 LOOP:
 	for {
 		select {
@@ -305,13 +309,7 @@ LOOP:
 			// Channel closed.  Toggle our state.
 			// Get the (new) control channel since our pointer now points to a dead one.
 			broadcast, suspendedByBroadcast = c.broadcaster.Get()
-			if suspendedByBroadcast {
-				suspendedLocally = true
-				c.stopTimerLocked()
-			} else if suspendedLocally {
-				suspendedLocally = false
-				c.resetTimerLocked()
-			}
+			c.setSuspended(suspendedByBroadcast)
 
 		case command := <-c.control:
 			var err error
@@ -321,14 +319,10 @@ LOOP:
 				time.Sleep(c.PauseDuration)
 				c.resetTimerLocked()
 			case "suspend":
-				suspendedLocally = true
-				c.stopTimerLocked()
+				c.setSuspended(true)
 				continue
 			case "resume":
-				if suspendedLocally {
-					suspendedLocally = false
-					c.resetTimerLocked()
-				}
+				c.setSuspended(false)
 			case "kill":
 				// Danger.  Can't restart from the control channel.
 				c.stopTimerLocked()
@@ -346,7 +340,9 @@ LOOP:
 
 			now := time.Now()
 			c.Lock()
-			if 0 < len(c.Timeline) {
+			// A value delivered just before the timer was stopped
+			// must not fire anything while suspended.
+			if !c.suspended && 0 < len(c.Timeline) {
 				job := c.Timeline[0]
 				ready := !now.Before(job.Next)
 				if ready {
@@ -401,8 +397,30 @@ func (c *Cron) stopTimerLocked() {
 	c.Unlock()
 }
 
+// setSuspended records whether the processing loop is suspended.
+//
+// On suspension the timer is stopped; on the transition from
+// suspended to running it is re-armed.  Nothing happens if the state
+// does not change.
+func (c *Cron) setSuspended(suspended bool) {
+	c.Lock()
+	if suspended {
+		c.suspended = true
+		c.timer.Stop()
+	} else if c.suspended {
+		c.suspended = false
+		c.resetTimer()
+	}
+	c.Unlock()
+}
+
 func (c *Cron) resetTimer() {
 	// Assumes we have the lock.
+	if c.suspended {
+		// Resume will arm the timer.
+		c.timer.Stop()
+		return
+	}
 	if 0 < len(c.Timeline) {
 		next := c.Timeline[0].Next
 		c.timerTarget = next
